@@ -53,6 +53,7 @@ type hookSend struct {
 }
 
 type modelL2 struct {
+	SecpVals  bool // the chain's consensus parameters allow secp256k1 validator keys
 	Prop      string
 	Authority string
 	Params    opchildtypes.Params
@@ -82,6 +83,7 @@ func newModelL2(prop, authority string) *modelL2 {
 
 func (m *modelL2) clone() *modelL2 {
 	o := newModelL2(m.Prop, m.Authority)
+	o.SecpVals = m.SecpVals
 	o.Params = m.Params
 	o.Params.BridgeExecutors = append([]string{}, m.Params.BridgeExecutors...)
 	o.Params.FeeWhitelist = append([]string{}, m.Params.FeeWhitelist...)
@@ -540,7 +542,7 @@ func (m *modelL2) stepAddVal(x *opchildtypes.MsgAddValidator, bc blockCtx) stepO
 	if m.valByKey(pk.Bytes()) != nil {
 		p.failBecause("addval.key-exists", "add-validator-key-exists", "C13")
 	}
-	if pk.Type() != "ed25519" {
+	if pk.Type() != "ed25519" && !(m.SecpVals && pk.Type() == "secp256k1") {
 		p.failBecause("addval.key-type", "add-validator-key-type", "C13")
 	}
 	return stepOut{P: p, OnSuccess: func(res *txRes) []mismatch {
